@@ -26,7 +26,7 @@ KERN_SUFFIXES = ['.krn', '.krn', '.kern']
 EKERN_SUFFIXES = ['.ekrn', '.ekern']
 LOCALES = ['utf-8', 'utf-8', 'utf-8', 'latin-1', 'cp1252', 'ascii']
 NAMES = ['a', 'b', 'score', 'x.y', 'op.1.no.2', 'Ü', 'my score', '.hidden', 'c']
-DIRS = ['', 'in', 'in/sub', 'in/sub/deep', 'data', 'in/other']
+DIRS = ['', 'in', 'in/sub', 'in/sub/deep', 'data', 'in/other', 'in/.drafts']
 
 
 def universal(text: str) -> str:
@@ -63,7 +63,7 @@ class C20:
               'fault_eintr_write', 'actor_mkdir_race', 'target_preexisting_truncated', 'dir_mode_one_input_failed', 'dir_mode_nested_skipped_without_r',
               'listing_order_non_sorted', 'locale_cannot_encode', 'relative_path_via_virtual_cwd', 'roundtrip_checked', 'actor_unlink',
               'interrupt_delivered', 'load_equal_checked', 'dump_equal_checked', 'converter_equal_checked', 'bom_input', 'crlf_input',
-              'flipped_byte_input', 'rerun_after_fault_exact', 'edited_in_place_same_size', 'big_input_over_24k', 'output_is_the_input_file']
+              'flipped_byte_input', 'rerun_after_fault_exact', 'edited_in_place_same_size', 'big_input_over_24k', 'output_is_the_input_file', 'blank_line_in_input']
 
     # ================================================================ plan
     def gen_plan(self, seed, index, tier):
@@ -105,7 +105,7 @@ class C20:
             di = rng.randrange(ndocs)
             eol = seeds.weighted(rng, [('\n', 5), ('\r\n', 3), ('mixed', 1), ('\r', 0.7)])
             op = {'op': 'put', 'path': path, 'doc': di, 'kind': kind, 'eol': eol, 'final_newline': rng.random() < 0.75, 'bom': rng.random() < 0.06,
-                  'flip': None}
+                  'flip': None, 'blank': sorted(rng.randrange(1, 12) for _ in range(rng.choice([1, 1, 2]))) if rng.random() < 0.08 else []}
             if faulty and frng.random() < 0.12:
                 op['flip'] = [frng.randrange(1 << 20), frng.choice([0xFF, 0xC3, 0x80, 0xE2, 0xF0, 0x00])]
             ops.append(op)
@@ -304,6 +304,10 @@ class C20:
                                 cells[ks[0]] = '4c€'
                                 lines[ri] = '\t'.join(cells)
                                 break
+                for b in sorted(op.get('blank') or [], reverse=True):
+                    if b < len(lines):
+                        lines.insert(b, '')          # a blank line inside the file (tolerated by both readers; it still counts as a line)
+                        bump(probes, 'blank_line_in_input')
                 if op['eol'] == 'mixed':
                     text = ''.join(l + ('\r\n' if i % 2 else '\n') for i, l in enumerate(lines))
                     if not op['final_newline']:
@@ -546,7 +550,9 @@ class C20:
                     if expected[0] == 'exc':
                         if got != expected[1] and not faulted:
                             add_v('dump-differs', 'dump-differs/exception', expected[1], got, opts=op['opts'])
-                        frame_check(before, {target}, 'dump', parents_of([target]))
+                        # dumps() raises for this option set, so there is no string to write: dump() = dumps() + write must leave
+                        # the file system exactly as it was (an existing good file at the target included)
+                        frame_check(before, set(), 'dump-that-raises', set())
                     else:
                         res = check_target('dump', target, expected[1], got == 'returned', faulted, 'dump')
                         if got != 'returned' and not faulted and res != 'unencodable':
